@@ -172,6 +172,22 @@ def correspond(ctx):
                             e = build(); o = 'len=%d val=%s' % (len(e), vtok(list(e.value())))
                         except (TypeError, ValueError, IndexError, NotImplementedError): o = 'refused'
                         lines.append('expr ' + t); obs.append(o); toks.append(t)
+        # directed: sum() of a vector function that contains a broadcast length-1 convex / concave term (counted once per component of the sum)
+        for j, L in enumerate(g.lens):
+            if L < 2: continue
+            xj = g.vars[j]
+            for nm, build, t in (
+                    ('sum(x + max(x0, c))', lambda: M.sum(xj + M.max(xj[0], 0.5)), 'sum add var %d max2 idx 0 var %d const 1/2' % (j, j)),
+                    ('sum(x + abs(x0))', lambda: M.sum(xj + abs(xj[0])), 'sum add var %d abs idx 0 var %d' % (j, j)),
+                    ('sum(x + min(x0, x1))', lambda: M.sum(xj + M.min(xj[0], xj[1])), 'sum add var %d min2 idx 0 var %d idx 1 var %d' % (j, j, j)),
+                    ('sum(-x + min(..))', lambda: M.sum(M.min(xj[0], xj[1], 1.0) - xj), 'sum sub min2 min2 idx 0 var %d idx 1 var %d const 1 var %d' % (j, j, j)),
+                    ('sum(x + sum(max(x, 0)))', lambda: M.sum(xj + M.sum(M.max(xj, 0.0))), 'sum add var %d sum max2 var %d const 0' % (j, j)),
+                    ('sum(2*abs(x) + max(x0, x1, 1))', lambda: M.sum(2.0 * abs(xj) + M.max(xj[0], xj[1], 1.0)), 'sum add smul 2 abs var %d max2 max2 idx 0 var %d idx 1 var %d const 1' % (j, j, j)),
+                    ('sum(x + max(x))', lambda: M.sum(xj + M.max(xj)), 'sum add var %d maxv var %d' % (j, j))):
+                try:
+                    e = build(); o = 'len=%d val=%s' % (len(e), vtok(list(e.value())))
+                except (TypeError, ValueError, IndexError, NotImplementedError): o = 'refused'
+                lines.append('expr ' + t); obs.append(o); toks.append(t)
     # non-aliasing: every operator returns a new object; mutating the result in place leaves the operands as they were
     n2 = 300 if ctx.quick() else 6000
     for v, x in zip(g.vars, vals[0]): v.value = cvxopt.matrix(x)
